@@ -318,7 +318,7 @@ func (w *world) query(q Query, metric string) (map[string]float64, error) {
 			for ts, v := range pts {
 				k := fmt.Sprintf("%s|%s|%d", tg, fname, ts-w.base)
 				if _, dup := out[k]; dup {
-					return nil, fmt.Errorf("harness: result holds two series with tags %q", tg)
+					return nil, fmt.Errorf("result holds two series with the same tags %q", tg)
 				}
 				out[k] = v
 			}
